@@ -7,7 +7,7 @@
 (* A SITE is a token position where a move applies:                             *)
 (*   word  : case (upper / lower / mixed)                                        *)
 (*   blank : width (two blanks / a tab)                                          *)
-(*   eol   : a blank line after it / a trailing comment before it /              *)
+(*   eol   : a blank line after it / a trailing comment or a blank before it /    *)
 (*           (when flagged joinable) replaced by a colon                         *)
 (*   colon : (when flagged splittable) replaced by a line end                    *)
 (* plus the line-ending convention of the whole file.  Moves only change the     *)
@@ -27,7 +27,7 @@ Seeds == ndJsonDeserialize(IOEnv.SEEDS)
 MovesAt(tk) ==
   CASE tk.k = "word" -> {"upper", "lower", "mixed"}
     [] tk.k = "blank" -> {"two", "tab"}
-    [] tk.k = "eol" -> {"blankline", "comment"} \cup (IF tk.join THEN {"join"} ELSE {})
+    [] tk.k = "eol" -> {"blankline", "comment", "trailblank"} \cup (IF tk.join THEN {"join"} ELSE {})
     [] tk.k = "colon" -> (IF tk.split THEN {"split"} ELSE {})
     [] OTHER -> {}
 
@@ -35,7 +35,7 @@ MovesAt(tk) ==
 Apply(tk, mv) ==
   CASE mv \in {"upper", "lower", "mixed"} -> [tk EXCEPT !.case = mv]
     [] mv \in {"two", "tab"} -> [tk EXCEPT !.width = mv]
-    [] mv \in {"blankline", "comment"} -> [tk EXCEPT !.extra = mv]
+    [] mv \in {"blankline", "comment", "trailblank"} -> [tk EXCEPT !.extra = mv]
     [] mv = "join" -> [tk EXCEPT !.k = "colon"]
     [] mv = "split" -> [tk EXCEPT !.k = "eol"]
 
@@ -58,11 +58,14 @@ Init ==
                  /\ \E j \in {x \in SiteSet(s) : x > i} : \E mj \in MovesAt(Seeds[s].toks[j]) :
                        sites = (i :> mi) @@ (j :> mj)
      \/ /\ mode = "all"          \* every site moved at once, one choice of move per kind
-        /\ \E cw \in {"upper", "lower", "mixed"}, bw \in {"two", "tab"}, ew \in {"blankline", "comment"} :
+        /\ \E cw \in {"upper", "lower", "mixed"}, bw \in {"two", "tab"}, ew \in {"blankline", "comment", "trailblank"} :
               sites = [i \in SiteSet(s) |->
                          LET tk == Seeds[s].toks[i] IN
                          IF tk.k = "word" THEN cw ELSE IF tk.k = "blank" THEN bw
                          ELSE IF tk.k = "eol" THEN ew ELSE "split"]
+     \/ /\ mode = "alljoin"      \* every line end that may become a colon does: whole constructs end up on one line
+        /\ sites = [i \in {x \in SiteSet(s) : Seeds[s].toks[x].k = "eol" /\ Seeds[s].toks[x].join} |-> "join"]
+        /\ DOMAIN sites # {}
      \/ /\ mode = "eolonly" /\ sites = [i \in {} |-> ""]
 Next == UNCHANGED vars
 Spec == Init /\ [][Next]_vars
